@@ -218,6 +218,80 @@ class C17GenericND(Harness):
 
 
 @register
+class C17Layouts(Harness):
+    prop = "C17"
+    group = "layouts"
+    bounds_doc = "4 symbolic values as 2x2 arrays in non-C memory layouts (transposed view, strided view, reversed view, Fortran-ordered copy) with same-shape weights / a second coordinate array in a different layout, through h1 (dropna on / off), Histogram1D.fill_n and h2: identical to the histogram of the flat C-ordered array of the same logical elements"
+
+    def instances(self, tier):
+        for layout in (("transposed", "fortran") if tier == "quick" else ("transposed", "strided", "reversed", "fortran")):
+            for way in ("h1_w_dropna0", "h1_w_dropna1", "fill_n_w", "h2_mixed"):
+                yield f"lay-{layout}-{way}", dict(layout=layout, way=way)
+
+    def declare(self, cx, p):
+        return {"v": cx.reals("v", 4), "u": cx.reals("u", 4), "w": cx.ints("w", 4, 0, 5), "e": declare_edges(cx, "e", 1), "d": declare_edges(cx, "d", 1)}
+
+    @staticmethod
+    def _view(np, vals, layout, dt):
+        """A 2x2 array whose logical (C-order) elements are known, stored in a non-C layout. Returns (array, logical flat list)."""
+        a, b, c, d = vals
+        if layout == "transposed":        # base memory a b c d, logical a c b d
+            return np.asarray([[a, b], [c, d]], dtype=dt).T, [a, c, b, d]
+        if layout == "strided":           # every second column of a 2x4 array
+            return np.asarray([[a, 0, b, 0], [c, 0, d, 0]], dtype=dt)[:, ::2], [a, b, c, d]
+        if layout == "reversed":
+            return np.asarray([[a, b], [c, d]], dtype=dt)[::-1], [c, d, a, b]
+        return np.asarray([[a, b], [c, d]], dtype=dt).copy(order="F"), [a, b, c, d]
+
+    def drive(self, E, p, x):
+        np = E.np
+        fac = E.mod("physt._facade")
+        H1 = E.mod("physt.histogram1d").Histogram1D
+        way = p["way"]
+        data, flat = self._view(np, x["v"], p["layout"], float)
+        wts, wflat = self._view(np, x["w"], p["layout"], int)
+        e, d = np.asarray(x["e"]), np.asarray(x["d"])
+        if way.startswith("h1_w"):
+            dropna = way.endswith("1")
+            got = E.attempt(fac.h1, data, e, weights=wts, dropna=dropna)
+            ref = E.attempt(fac.h1, np.asarray(flat, dtype=float), e, weights=np.asarray(wflat, dtype=int))
+        elif way == "fill_n_w":
+            a, b = H1(e), H1(e)
+            r1 = E.attempt(a.fill_n, data, weights=wts)
+            r2 = E.attempt(b.fill_n, np.asarray(flat, dtype=float), weights=np.asarray(wflat, dtype=int))
+            got, ref = (a if not isinstance(r1, Raised) else r1), (b if not isinstance(r2, Raised) else r2)
+        else:
+            # second coordinate: same shape, plain C order (so the two arrays differ in memory layout)
+            y = np.asarray([[x["u"][0], x["u"][1]], [x["u"][2], x["u"][3]]], dtype=float)
+            got = E.attempt(fac.h2, data, y, [e, d])
+            ref = E.attempt(fac.h2, np.asarray(flat, dtype=float), np.asarray(list(x["u"]), dtype=float), [e, d])
+        return {"got": {"raised": got} if isinstance(got, Raised) else full(E, got), "ref": {"raised": ref} if isinstance(ref, Raised) else full(E, ref)}
+
+    def oracle(self, cx, p, x, obs):
+        yield "no_harness_exception", obs.get("raised") is None
+        if obs.get("raised") is not None:
+            return
+        yield "array_reference_ok", "raised" not in obs["ref"]
+        yield "container_accepted", "raised" not in obs["got"]
+        if "raised" in obs["got"] or "raised" in obs["ref"]:
+            return
+        g, r = dict(obs["got"]), dict(obs["ref"])
+        g["meta_keys"], r["meta_keys"] = [], []
+        yield "same_as_flat_array", same_snapshot(cx, g, r)
+        # and the reference itself: contents are the weights of the logical elements inside the bin
+        if p["way"] != "h2_mixed":
+            _, flat = self._view_terms(cx, x["v"], p["layout"])
+            _, wflat = self._view_terms(cx, x["w"], p["layout"])
+            e = [cx.t(t) for t in x["e"]]
+            inside = [z3.And(v >= e[0], v <= e[1]) for v in flat]
+            yield "content", cx.eq(g["freq"][0], sum([z3.If(c, w, 0) for c, w in zip(inside, wflat)], z3.IntVal(0)))
+
+    def _view_terms(self, cx, vals, layout):
+        a, b, c, d = [cx.t(v) for v in vals]
+        return None, {"transposed": [a, c, b, d], "strided": [a, b, c, d], "reversed": [c, d, a, b], "fortran": [a, b, c, d]}[layout]
+
+
+@register
 class C17Pandas(Harness):
     prop = "C17"
     group = "pandas"
